@@ -265,6 +265,9 @@ class Chipset(object):
         timeout = min((timeout + (1 if timeout > 0 else 0)) * 10, 0xFFFF)
         data = self.send_command(0x04,
                                  struct.pack("<H", timeout) + bytes(data))
+        if data and len(data) < 4:
+            log.error("insufficient data for the communication status")
+            raise CommunicationError(b'\x01\x00\x00\x00')  # PROTOCOL_ERROR
         if data and tuple(data[0:4]) != (0, 0, 0, 0):
             raise CommunicationError(data[0:4])
         return data[5:] if data else None
@@ -320,6 +323,9 @@ class Chipset(object):
 
         data = self.send_command(0x48, data)
 
+        if data and len(data) < 7:
+            log.error("insufficient data for the communication status")
+            raise CommunicationError(b'\x01\x00\x00\x00')  # PROTOCOL_ERROR
         if data and tuple(data[3:7]) != (0, 0, 0, 0):
             raise CommunicationError(data[3:7])
 
